@@ -65,11 +65,15 @@ class MatrixUtilStatistics(E2Contract):
         tot = mu.calc_covariance_mat_total([(n[0], q[0]), (n[1], q[1])])
         conj = mu.calc_conjugate(inp["X"], tot)
         se = mu.calc_se(inp["xs"][0], inp["ys"][0])
+        I = 1j
+        cx = [inp["xs"][0][0] + I * inp["xs"][1][0], inp["xs"][0][1] - I * inp["xs"][2][1]]
+        cy = [inp["ys"][0][0] - I * inp["ys"][1][0], inp["ys"][0][1] + I * inp["ys"][2][1]]
+        se_c = mu.calc_se(cx, cy)
         mse, std = mu.calc_mse_prob_dists(inp["xs"], inp["ys"])
         rep = mu.replace_prob_dist(q[0])
         f0 = mu.calc_fisher_matrix(q[0], list(inp["g"][0]))
         ft = mu.calc_fisher_matrix_total(q, [list(g) for g in inp["g"]], inp["w"])
-        return dict(cov0=cov0, tot=tot, conj=conj, se=se, mse=mse, std=std, rep=rep, f0=f0, ft=ft)
+        return dict(cov0=cov0, tot=tot, conj=conj, se=se, se_c=se_c, mse=mse, std=std, rep=rep, f0=f0, ft=ft)
 
     def post(self, W, cfg, inp, out):
         m, k = cfg
@@ -84,6 +88,9 @@ class MatrixUtilStatistics(E2Contract):
             for x in range(m):
                 tot = tot + np.outer(g[x], g[x]) / p[x]
             return tot
+        d0 = (inp["xs"][0][0] - inp["ys"][0][0], inp["xs"][1][0] + inp["ys"][1][0])
+        d1 = (inp["xs"][0][1] - inp["ys"][0][1], -inp["xs"][2][1] - inp["ys"][2][1])
+        se_complex = np.dot(d0[0], d0[0]) + np.dot(d0[1], d0[1]) + np.dot(d1[0], d1[0]) + np.dot(d1[1], d1[1])
         ses = []
         for r in range(3):
             s = 0
@@ -100,6 +107,7 @@ class MatrixUtilStatistics(E2Contract):
                 eq("covariance-total/direct-sum", out["tot"], blk, "block diagonal of the per-schedule covariances"),
                 eq("conjugate", out["conj"], inp["X"] @ blk @ inp["X"].T, "calc_conjugate(X, V) == X V X^T"),
                 eq("squared-error", out["se"], ses[0], "calc_se == sum_j |x_j - y_j|^2"),
+                eq("squared-error/complex-entries", out["se_c"], se_complex, "calc_se == sum_j |x_j - y_j|^2 (modulus squared) for complex arrays"),
                 eq("mse-mean", out["mse"], mean, "mean of the squared errors"),
                 eq("mse-std^2", out["std"] * out["std"], var, "sample standard deviation (ddof=1) squared == unbiased sample variance"),
                 eq("replace_prob_dist(regular)", out["rep"], q[0], "entries above the threshold are left unchanged"),
@@ -190,6 +198,7 @@ class AnalyticalErrors(E2Contract):
                    cov_lin=qt.calc_covariance_linear_mat_total(obj, ns),
                    mse_var=qt.calc_mse_linear_analytical(obj, ns, mode="var"),
                    mse_obj=qt.calc_mse_linear_analytical(obj, ns, mode="qoperation"),
+                   mse_default=qt.calc_mse_linear_analytical(obj, ns),
                    mse_empi=qt.calc_mse_empi_dists_analytical(obj, ns),
                    fisher=[qt.calc_fisher_matrix(j, var) for j in range(qt.num_schedules)])
         if var.shape[0] <= 4 and not (len(cfg) > 2 and cfg[2] == "mixed"):
@@ -235,7 +244,9 @@ class AnalyticalErrors(E2Contract):
               eq("mse-empirical-distributions", out["mse_empi"], empi, "E |f - p|^2 == sum_j tr Cov_j"),
               eq("mse-linear/var-mode", out["mse_var"], np.trace(V), "E |v_hat - v|^2 == tr Cov(v_hat)"),
               eq("mse-linear/object-mode", out["mse_obj"], np.trace(J @ V @ J.T),
-                 "E |object(v_hat) - object(v)|^2 == tr(J Cov(v_hat) J^T), J the Jacobian of variables -> stacked object parameters")]
+                 "E |object(v_hat) - object(v)|^2 == tr(J Cov(v_hat) J^T), J the Jacobian of variables -> stacked object parameters"),
+              eq("mse-linear/default-mode-is-the-object-mode", out["mse_default"], out["mse_obj"],
+                 "called without a mode (as the simulation checks and the graph helpers do) the formula is the object-mode one")]
         k = 0
         fish = []
         for j in range(S):
@@ -364,7 +375,7 @@ class SampleSeries(E2Contract):
         results = [_FakeResult(list(s), list(t)) for s, t in zip(inp["ests"], inp["times"])]
         mses, stds, comp = da.convert_to_series(results, inp["true"])
         np = W.np
-        norm = lambda a, b: np.sqrt(np.dot(a - b, a - b))
+        norm = lambda a, b: np.sum(a - 2 * b)          # deliberately NOT symmetric in its two arguments
         return dict(mses=list(mses), stds=list(stds), comp=[list(c) for c in comp],
                     general=da.calc_mse_general_norm(inp["xs"], inp["yv"], norm),
                     cov=da.calc_covariance_matrix_of_prob_dist(inp["p"][0], inp["n"]),
@@ -388,8 +399,8 @@ class SampleSeries(E2Contract):
               eq("std[d]^2==unbiased-sample-variance", [s * s for s in out["stds"]], var, "stds[d]^2 == sample variance (ddof 1) over all repetitions"),
               eq("computation-times-transposed", out["comp"], [[inp["times"][r][d] for r in range(reps)] for d in range(sizes)],
                  "comp_time[d][r] == computation time of repetition r at data size d")]
-        g = sum((np.dot(x - inp["yv"], x - inp["yv"]) for x in inp["xs"][1:]), np.dot(inp["xs"][0] - inp["yv"], inp["xs"][0] - inp["yv"])) / 3
-        cl.append(eq("general-norm-mse", out["general"], g, "calc_mse_general_norm == (1/len) sum_i norm(x_i, y)^2"))
+        g = sum((np.sum(x - 2 * inp["yv"]) ** 2 for x in inp["xs"][1:]), np.sum(inp["xs"][0] - 2 * inp["yv"]) ** 2) / 3
+        cl.append(eq("general-norm-mse", out["general"], g, "calc_mse_general_norm == (1/len) sum_i norm_function(x_i, y)^2, sample first, true value second"))
         p0, p1 = inp["p"]
         c0 = (np.diag(p0) - np.outer(p0, p0)) / inp["n"]
         c1 = (np.diag(p1) - np.outer(p1, p1)) / inp["n"]
